@@ -48,7 +48,7 @@ pub fn install_child_panic_hook() {
             }
         }
         if !loc.starts_with("/repo/src/") {
-            if let Some(f) = frames.iter().find(|f| f.starts_with("src/")) {
+            if let Some(f) = frames.iter().find(|f| f.starts_with("src/") && !f.starts_with("src/buffer_pool.rs")) {
                 text.push_str(&format!(" [first rten frame /repo/{}]", f));
             }
         }
